@@ -192,7 +192,7 @@ func c09Escape(c *core.Ctx, g grammarFacts) {
 	in := ordabs.New(c.Prog)
 	in.InstallErrorStubs()
 	in.InstallStringStubs()
-	textAlpha := []string{`"`, `'`, `\`, "\n", "\r", "\t", "\x00", "\x7f", "a", "x", "u", "{", "0", "é", "�", "日", "😀"}
+	textAlpha := []string{`"`, `'`, `\`, "\n", "\r", "\t", "\x00", "\x7f", "a", "x", "u", "{", "0", "é", "�", "日", "😀", "\U0010FFFF", "\U0010FFFE", "\ud7ff", "\ue000", "\u0080", "\uffff", "\U00010000"}
 	byteAlpha := []string{`"`, `'`, `\`, "\n", "\r", "\t", "\x00", "\x7f", "a", "x", "u", "0", "\x80", "\xc3", "\xa9", "\xff"}
 	for _, mode := range []struct {
 		bytes bool
